@@ -422,6 +422,25 @@ func C18(c *fw.Ctx) {
 			}
 		}
 	}
+	// deep recursion: the transformations must not change what a deep recursion does (two shapes, depths
+	// 2^10, 2^12, 2^13, 2^14, 3*2^13: what the pinned tree still runs under every transformation within the
+	// host's stack limit -- at 2^15 the fully parenthesised text needs a Go stack beyond 512 MB, which the
+	// host refuses: a resource limit of the host and not a statement about meaning)
+	{
+		id, num := model.Id, model.Num
+		for _, d := range []int{1 << 10, 1 << 12, 1 << 13, 1 << 14, 3 << 13} {
+			sum := []*model.N{
+				model.Fun("sm", []string{"n"}, model.If(model.Bin("<=", id("n"), num(0)), model.Block(model.Return(num(0))), nil), model.Return(model.Bin("+", id("n"), model.CallN("sm", model.Bin("-", id("n"), num(1)))))),
+				model.Print(model.CallN("sm", num(10))), model.Print(model.CallN("sm", num(float64(d)))), T("done"),
+			}
+			mutual := []*model.N{
+				model.Fun("ev", []string{"n"}, model.If(model.Bin("==", id("n"), num(0)), model.Block(model.Return(model.Bool(true))), nil), model.Return(model.Un("!", model.CallN("od", model.Bin("-", id("n"), num(1)))))),
+				model.Fun("od", []string{"n"}, model.If(model.Bin("==", id("n"), num(0)), model.Block(model.Return(model.Bool(true))), nil), model.Return(model.Un("!", model.CallN("ev", model.Bin("-", id("n"), num(1)))))),
+				model.Print(model.CallN("ev", num(float64(d)))), T("done"),
+			}
+			corpus = append(corpus, item{model.Render(parenAll(sum)), "", "deep-recursion", false}, item{model.Render(parenAll(mutual)), "", "deep-recursion", false})
+		}
+	}
 	c.Bound("corpus_programs", len(corpus))
 	singles := 0
 	for _, it := range corpus {
